@@ -345,6 +345,13 @@ theorem View.resolves (v : View ν α) : v.WF → Resolves v := by
   induction v using View.ind with
   | tensor id t => intro hw; exact resolves_tensor id t hw
   | matrix id m r c => intro hw; exact resolves_matrix id m r c hw
+  | matrixOf s r c ih =>
+    intro hw
+    simp only [View.WF] at hw
+    refine resolves_unary (ih hw.1) id (fun _ => rfl) rfl ?_ ?_
+    · intro idx hin
+      simpa [matrixOf_lens s r c hw.2.1] using hin
+    · intro a b _ _ h; exact h
   | range s rs ih =>
     intro hw
     simp only [View.WF] at hw
